@@ -131,6 +131,18 @@ def run(tier):
                    for g in cli_groups]
     single_tasks = [{"fn": "harness.tasks.analyze:cli_multi", "args": {"texts": [t], "goal_strs": gstrs, "at_n": 3}}
                     for g in cli_groups for _, t, _ in g]
+    # the same with --after_loop on guarded loops (the negated-guard polynomial shares monomials between programs)
+    guarded_texts = [
+        "c = 0\ns = 0\nwhile c == 0:\n    c = Bernoulli(1/2)\n    s = s + 1\nend\n",
+        "c = 1\ns = 0\nwhile c == 1:\n    c = Bernoulli(3/4)\n    s = s + 3\nend\n",
+        "c = 0\ns = 1\nwhile c < 2:\n    c = c + 1 {1/2} c\n    s = s + c\nend\n",
+    ]
+    al_goals = ["E(s)", "c2(s)"]
+    cli_groups.append([(f"guarded{i}", t, None) for i, t in enumerate(guarded_texts)])
+    multi_tasks.append({"fn": "harness.tasks.analyze:cli_multi", "args": {"texts": guarded_texts, "goal_strs": al_goals,
+                                                                        "extra_args": ["--after_loop"]}})
+    single_tasks += [{"fn": "harness.tasks.analyze:cli_multi", "args": {"texts": [t], "goal_strs": al_goals,
+                                                                     "extra_args": ["--after_loop"]}} for t in guarded_texts]
     mo = run_tasks(multi_tasks + single_tasks, timeout=(70 if quick else 200) * 3, recycle=1) if (lean_ok and cli_groups) else []
     multi_out, single_out = mo[:len(multi_tasks)], mo[len(multi_tasks):]
     si = 0
